@@ -21,19 +21,23 @@ type ExploreUnion struct {
 // - nil (aka all) if any member selector has nil interests
 // - the union of values returned by all member selectors otherwise
 func (s ExploreUnion) Interests() []datamodel.PathSegment {
-	// Check for any high-cardinality selectors first; if so, shortcircuit.
-	//  (n.b. we're assuming the 'Interests' method is cheap here.)
+	// Ask every member once.
+	//  (Asking is not free: a member that is a union itself asks all of its members in turn.)
+	// If any member is a high-cardinality selector, so are we: shortcircuit.
+	memberInterests := make([][]datamodel.PathSegment, 0, len(s.Members))
 	for _, m := range s.Members {
-		if m.Interests() == nil {
+		mi := m.Interests()
+		if mi == nil {
 			return nil
 		}
+		memberInterests = append(memberInterests, mi)
 	}
 	// Accumulate the whitelist of interesting path segments.
 	// A segment that several members are interested in is listed once (at its first mention):
 	// the walk explores each listed segment once, and Explore combines what the members say about it.
 	v := []datamodel.PathSegment{}
-	for _, m := range s.Members {
-		for _, ps := range m.Interests() {
+	for _, mi := range memberInterests {
+		for _, ps := range mi {
 			if !containsSegment(v, ps) {
 				v = append(v, ps)
 			}
